@@ -595,8 +595,8 @@ func (c *Ctx) CountOnPaths(fnName string, sel Sel, want int) bool {
 	return true
 }
 
-// Between: every path from a `from` site to a `to` site passes a `via` site.
-func (c *Ctx) Between_misc2(fnName string, from, to, via Sel, inclusive bool) bool {
+// BetweenVia: every path from a `from` site to a `to` site passes a `via` site.
+func (c *Ctx) BetweenVia(fnName string, from, to, via Sel, inclusive bool) bool {
 	rule := "pass-between"
 	construct := fmt.Sprintf("%s: from [%s] to [%s] always via [%s]", fnName, from.Name, to.Name, via.Name)
 	fn, ins := c.sites(rule, fnName, from)
